@@ -14,7 +14,7 @@ import (
 type c11 struct {
 	base
 	nEnum, nUnknown, nRand int
-	nRec                   int
+	nRec, nMany            int
 }
 
 func init() { fw.Register("C11", func() fw.Property { return &c11{} }) }
@@ -32,10 +32,11 @@ func (p *c11) Init(tier string, seed int64) {
 	p.nEnum = 5 * 7 * len(c11Forms) * len(c11Uses)
 	p.nUnknown = 9
 	p.nRec = 5 * 3 * 2
+	p.nMany = len(c11ManyParams) * 3 * len(c11Forms)
 	p.nRand = p.pick(6000, 200000)
 }
 
-func (p *c11) N() int { return p.nEnum + p.nUnknown + p.nRec + p.nRand }
+func (p *c11) N() int { return p.nEnum + p.nUnknown + p.nRec + p.nMany + p.nRand }
 
 // buildRec: terminating recursion. Every level reads its own parameters again after the inner call has
 // returned, so an activation record shared between the calls of one macro shows.
@@ -86,6 +87,28 @@ func (p *c11) buildRec(j int) (*Program, string) {
 	}
 	ts["main"] = tpl("main", main...)
 	return &Program{Templates: ts, Main: "main", Ctx: map[string]interface{}{}}, fmt.Sprintf("recursion/depth=%d/shape=%d/home=%d", depth, shape, home)
+}
+
+// c11ManyParams: parameter lists longer than anybody writes by hand - binding is by position whatever the position.
+var c11ManyParams = []int{7, 9, 12, 17, 33, 65, 130}
+
+// buildMany: a macro with n parameters called with n-1, n and n+2 arguments in every call form.
+func (p *c11) buildMany(j int) (*Program, string) {
+	form := j % len(c11Forms)
+	j /= len(c11Forms)
+	delta := []int{-1, 0, 2}[j%3]
+	n := c11ManyParams[j/3]
+	m := c11macro("m", n)
+	setup, call := c11call(form, "m", c11args(n+delta, n))
+	ts := map[string]*gen.Template{"lib": tpl("lib", m, c11macro("other", 1))}
+	main := []gen.Node{}
+	if form == 0 {
+		main = append(main, m)
+	}
+	main = append(main, setup...)
+	main = append(main, tx("<"), pr(call), tx(">"))
+	ts["main"] = tpl("main", main...)
+	return &Program{Templates: ts, Main: "main", Ctx: map[string]interface{}{}}, fmt.Sprintf("many/params=%d/args=%d/form=%d", n, n+delta, form)
 }
 
 func c11macro(name string, nparams int, extra ...gen.Node) *gen.NMacro {
@@ -388,6 +411,8 @@ func (p *c11) build(i int) (*Program, string) {
 		return p.buildUnknown(i - p.nEnum)
 	case i < p.nEnum+p.nUnknown+p.nRec:
 		return p.buildRec(i - p.nEnum - p.nUnknown)
+	case i < p.nEnum+p.nUnknown+p.nRec+p.nMany:
+		return p.buildMany(i - p.nEnum - p.nUnknown - p.nRec)
 	}
 	return p.buildRand(i)
 }
@@ -433,7 +458,7 @@ func (p *c11) Run(i int) (res fw.Result) {
 			}
 		}
 		res.UniqueNT = 1
-	} else if i >= p.nEnum+p.nUnknown+p.nRec {
+	} else if i >= p.nEnum+p.nUnknown+p.nRec+p.nMany {
 		res.Sigs = append(res.Sigs, sig)
 	}
 	return
